@@ -51,6 +51,7 @@ def flat_prog(
     short_name_rate: float = 0.0,
     ret_index_rate: float = 0.0,
     mutable_setup_rate: float = 0.0,
+    many_args_rate: float = 0.0,
 ) -> Dict[str, Any]:
     """A call-only program: every statement is one call of a constructor function, depending on earlier
     sites through positional args / kwargs / activation flags.  Acyclic by construction."""
@@ -184,6 +185,11 @@ def flat_prog(
                              "args": list(body[j]["args"]), "kwargs": dict(body[j]["kwargs"]), "active": None,
                              "unpack": None, "tags": [], "out": f"v{i}"})
                 continue
+        if many_args_rate and i not in setup_idx and fn == names[i] and chance(draw, many_args_rate):
+            # scale: one call with 10-24 positional arguments - constants and the same few dependencies again and again
+            # (argument holders named "10th argument", "21st argument" ...; several edges between the same two nodes)
+            pool_args = [list(a_) for a_ in args] + [["c", draw(st.sampled_from([0, 1, "k", None]))] for _ in range(3)]
+            args = list(args) + [draw(st.sampled_from(pool_args)) for _ in range(draw(st.integers(10, 24)) - len(args))]
         mark = True
         if not mark_roots and not args and not kwargs and active is None and fn == names[i]:
             mark = False  # a true root of the graph: no constant marker argument either
